@@ -59,8 +59,8 @@ CHECKS = {
         "model_checking",
         "sim",
         "enumeration of every arrival point of a peer's A-RELEASE-RQ relative to the real service-class loops, with deviation-bounded schedule exploration around it",
-        "A byte-level raw peer runs C-FIND and C-GET operations against the real acceptor (handlers yielding 0..3 results) and sends A-RELEASE-RQ while idle, at every yield position (the handler is held until the request has reached the local provider), in place of every C-STORE sub-operation response and after the final response; quick: default schedule for all 41 arrival points plus all schedules with <= 1 deviation for the n=2 cases, thorough: <= 1 deviation for all.  The peer must receive A-RELEASE-RP promptly and the local association must end released, unless pynetdicom aborted for the documented DIMSE-timeout reason.",
-        "Same trusted base as C05/C06; C-MOVE sub-operations (second association) are not driven.",
+        "A byte-level raw peer runs C-FIND, C-GET and C-MOVE operations against the real acceptor (handlers yielding 0..3 results; C-MOVE sub-operations run over a real sub-association to a second real AE under the same scheduler) and sends A-RELEASE-RQ while idle, at every yield position (the handler is held until the request has reached the local provider), in place of every C-STORE sub-operation response of a C-GET and after the final response; quick: default schedule for all 58 arrival points plus all schedules with <= 1 deviation for the n=2 cases, thorough: <= 1 deviation for all.  The peer must receive A-RELEASE-RP promptly and the local association must end released, unless pynetdicom aborted for the documented DIMSE-timeout reason.",
+        "Same trusted base as C05/C06.",
         "3/C07",
     ),
     "C08": (
@@ -139,7 +139,7 @@ CHECKS = {
         "exploration",
         "enum",
         "enumeration of AE configurations, each run as a real association under the simulator, with the RQ/AC bytes from the wire tap checked by a strict reference decoder",
-        "215 configurations (1..128 requested contexts with repeated abstract syntaxes, AE titles, maximum PDU sizes, implementation UID / version names, every subset of extended-negotiation items incl. user identity types 1..5): the A-ASSOCIATE-RQ and the A-ASSOCIATE-AC/RJ on the wire are decoded by the strict reference decoder (every length field verified) and checked for 1..128 contexts with distinct odd IDs, one abstract and >= 1 transfer syntax each, exactly one application-context and user-information item with exactly one maximum-length and implementation-class item, one result per proposed context, a transfer syntax on every accepted item, legal non-blank AE titles and legal UIDs.",
+        "363 configurations (1..128 requested contexts with repeated abstract syntaxes, context objects handed to associate() that already carry IDs (every assignment of {none,1,3,5,255} to 2 and 3 contexts), AE titles, maximum PDU sizes, implementation UID / version names, every subset of extended-negotiation items incl. user identity types 1..5): the A-ASSOCIATE-RQ and the A-ASSOCIATE-AC/RJ on the wire are decoded by the strict reference decoder (every length field verified) and checked for 1..128 contexts with distinct odd IDs, one abstract and >= 1 transfer syntax each, exactly one application-context and user-information item with exactly one maximum-length and implementation-class item, one result per proposed context, a transfer syntax on every accepted item, legal non-blank AE titles and legal UIDs.",
         "Structural rules from PS3.8 9.3.2/9.3.3 and PS3.5.",
         "3/C12",
     ),
